@@ -34,7 +34,7 @@ func init() {
 			i := 0
 			for ; i < len(main.Body); i++ {
 				k := main.Body[i].K
-				if k != "set" && k != "setcap" && k != "macro" {
+				if k != "set" && k != "setcap" && k != "macro" && k != "if" && k != "for" && k != "do" {
 					break
 				}
 				top = append(top, main.Body[i])
